@@ -238,14 +238,16 @@ theorem firstMatch_admits (p : K → V → Bool) (t : Tree K V) :
     right
     exact ⟨x, hperm.mem_iff.1 (List.mem_of_find?_eq_some hf), by have := List.find?_some hf; simpa using this, rfl⟩
 
-theorem equal_eq (cmp : K → K → Int) (h : LawfulCmp cmp) (eqVal : V → V → Bool) {t t2 : Tree K V}
-    (h1 : Spec.Sorted cmp t.toList) (h2 : Spec.Sorted cmp t2.toList) :
-    equal cmp eqVal t t2 = Spec.equal cmp eqVal t.toList t2.toList := by
+/-- `Equal` between two tables constructed with (possibly different) lawful comparators: each pass looks the
+keys of one table up in the other table with the other table's own comparator -/
+theorem equal_eq (cmp cmp2 : K → K → Int) (h : LawfulCmp cmp) (h' : LawfulCmp cmp2) (eqVal : V → V → Bool)
+    {t t2 : Tree K V} (h1 : Spec.Sorted cmp t.toList) (h2 : Spec.Sorted cmp2 t2.toList) :
+    equal cmp cmp2 eqVal t t2 = Spec.equal cmp cmp2 eqVal t.toList t2.toList := by
   unfold equal Spec.equal Spec.includes
   rw [traverse_eq _ (by decide), traverse_eq _ (by decide), foldUntil_test, foldUntil_test,
     listing_ascending, listing_ascending]
   congr 1
-  · congr 1; funext x; rw [get_eq h _ h2]; cases Spec.get cmp x.1 t2.toList <;> rfl
+  · congr 1; funext x; rw [get_eq h' _ h2]; cases Spec.get cmp2 x.1 t2.toList <;> rfl
   · congr 1; funext x; rw [get_eq h _ h1]; cases Spec.get cmp x.1 t.toList <;> rfl
 
 end AlgoVerif.C01
